@@ -491,7 +491,7 @@ func genItems(r Rand, depth int) []Item {
 		if depth > 0 && chance(r, 25) {
 			out = append(out, Item{Key: pick(r, "sub", "inner", "opts", "mapping"), Block: true, Sub: genItems(r, depth-1)})
 		} else {
-			out = append(out, Item{Key: pick(r, "guest", "admin", "option", "debug", "kdc", "module", "path", "a.b"), Value: pick(r, "anonymous", "true", "/usr/lib/x.so", "host.example.com:88", "12", "some words here")})
+			out = append(out, Item{Key: pick(r, "guest", "admin", "option", "debug", "kdc", "module", "path", "a.b"), Value: pick(r, "anonymous", "true", "/usr/lib/x.so", "host.example.com:88", "12", "some words here", "%{uid}", "a{1,2}b", "c}")})
 		}
 	}
 	return out
@@ -659,6 +659,11 @@ func GenModel(r Rand, o Options) Model {
 		}
 		if chance(r, 30) {
 			rl.Extra = append(rl.Extra, Item{Key: "auth_to_local", Value: pick(r, "DEFAULT", "RULE:[2:$1](johndoe)s/^.*$/guest/", "RULE:[1:$1@$0](.*@EXAMPLE.COM)s/@.*//")})
+		}
+		if chance(r, 12) {
+			// curly brackets inside a value are part of the value: only "tag = {" opens a block and only a line that begins with "}" closes one
+			rl.Extra = append(rl.Extra, Item{Key: pick(r, "auth_to_local", "auth_to_local", "site_pattern"),
+				Value: pick(r, "RULE:[1:$1](^.{3}$)s/x/y/", "RULE:[1:$1](^[a-z]{2,8}$)", "RULE:[1:$1](^a{2)", "RULE:[1:$1](b}c)", "a}b", "x{y", "x {", "}{", "${realm}/%{uid}")})
 		}
 		if chance(r, 20) {
 			rl.Extra = append(rl.Extra, Item{Key: pick(r, "pkinit_anchors", "http_anchors", "sitename", "kdc_listen"), Value: pick(r, "FILE:/etc/ca.pem", "site-1", "88")})
